@@ -171,8 +171,8 @@ SPECS["C07"] = dict(
     outside=["multi-rank vote collection", "RootsimStop", "the liveness half (C08)"],
     queries=[
         c07("run_3lp_5ops", "harness_run", "quick", 3, 5),
-        c07("run_2lp_8ops", "harness_run", "thorough", 2, 8, timeout=1800),
-        c07("run_3lp_7ops", "harness_run", "thorough", 3, 7, timeout=1800),
+        c07("run_2lp_6ops", "harness_run", "thorough", 2, 6, timeout=2400),
+        c07("run_3lp_6ops", "harness_run", "thorough", 3, 6, timeout=2400),
     ],
 )
 
